@@ -110,21 +110,43 @@ def r2_compact(ctx):
     TCM = ("Iterator::next", "Iterator::enumerate", "slice::iter", "IntoIterator::into_iter", "Deref::deref", "Iterator::map", "Iterator::collect",
            "Iterator::copied", "Iterator::cloned", "Iterator::zip", "Vec::iter", "FromIterator::from_iter", "Iterator::rev")
     ok2 = False
-    for bi, t in c.calls():
-        if (t.get("callee") or "").endswith("HashMap::get") and t["args"] and op_place(t["args"][0]):
-            recv = fl0.canon_op(t["args"][0])
-            if k in fl.backward({op_place(t["args"][0])["l"]}, through_calls=TCM):
-                ok2 = True
-            for bi2, t2 in c.calls():
-                if (t2.get("callee") or "").endswith("HashMap::insert") and len(t2["args"]) > 1 and recv and fl0.canon_op(t2["args"][0]) == recv:
-                    key = op_place(t2["args"][1])
-                    if key and k in fl.backward({key["l"]}, through_calls=TCM):
-                        ok2 = True
+    # HashMap::get sites of compact() itself and of the closures it hands to iterator adaptors (for_each / map over values_mut); a receiver that is a
+    # captured variable is followed to the operand captured where the closure is built
+    gets = []
+    vm = []
+    for ck in F.with_closures(c.key):
+        cb = F.body(ck)
+        for bi, t in cb.calls():
+            cal = t.get("callee") or ""
+            if cal.endswith(("HashMap::values_mut", "HashMap::iter_mut", "BTreeMap::values_mut", "BTreeMap::iter_mut")):
+                vm.append((ck, bi))
+            if cal.endswith(("HashMap::get", "BTreeMap::get")) and t["args"] and op_place(t["args"][0]):
+                rp = op_place(t["args"][0])
+                if ck != c.key:
+                    cfl = Flow(cb, through_named=True)
+                    root = None
+                    for l in cfl.backward({rp["l"]}, through_calls=("Deref::deref",)):
+                        for _b, si, d in cfl.defs.get(l, []):
+                            if si != "term":
+                                pl = d["rv"].get("p") or op_place(d["rv"].get("op") or {})
+                                cap = F.captured(ck, pl) if pl else None
+                                if cap and cap[0].key == c.key:
+                                    root = op_place(cap[1])
+                    if root is None:
+                        continue
+                    rp = root
+                gets.append((ck, bi))
+                recv = fl0.canon_place(rp)
+                if k in fl.backward({rp["l"]}, through_calls=TCM):
+                    ok2 = True
+                for bi2, t2 in c.calls():
+                    if (t2.get("callee") or "").endswith(("HashMap::insert", "BTreeMap::insert")) and len(t2["args"]) > 1 and recv and fl0.canon_op(t2["args"][0]) == recv:
+                        key = op_place(t2["args"][1])
+                        if key and k in fl.backward({key["l"]}, through_calls=TCM):
+                            ok2 = True
     ctx.check(ok2, R, c.key + "|index_mapping", "the old->new index map is keyed by the elements of the same keep_indices list",
               "the index map applied to the bindings is not built from the keep list sent to the worker", c.loc(0))
     # bindings rewritten through the map
-    gets = [(bi, t) for bi, t in c.calls() if (t.get("callee") or "").endswith("HashMap::get")]
-    vm = [bi for bi, t in c.calls() if (t.get("callee") or "").endswith("HashMap::values_mut")]
     ctx.check(bool(gets) and bool(vm), R, c.key + "|rewrite", "every binding index is rewritten through the map (values_mut + get)", "bindings are no longer rewritten through the index map", c.loc(0))
     # compaction is unconditional: once a REPL process exists, every way through compact() hands the keep list to the worker (skipping it "because
     # the variables already sit in slots 0..n" leaves stale slots behind whenever a binding disappeared without running code, e.g. a type alias
